@@ -21,7 +21,7 @@ import (
 func main() {
 	hk.InstallHook()
 	installSwapObservers()
-	hk.Rule("directed (D/R): victim (act.Actor, trapping act.Actor, raw behaviour, meta process) x position (asleep, parked in a handler that then returns nil/error/panics, blocked in Call, parked by a yield-point gate at run.enter/tosleep/recheck/reacquire/term.err/term.kill/term.panic, a Kill parked at kill.zombie/kill.term, meta tosleep/recheck/reacquire/term/start.term, already terminated) x ordered action sequence over {handler error, panic, Kill, Kill twice, two concurrent Kills, exit from parent, exit from a non-parent, parent terminates, Start() returns nil/error, SendExitMeta}; R = seeded random sequences of 2..4 actions. storm (S): 40..200 victims, seeded causes and traffic from 4..16 goroutines under seeded delays at the yield points. node-stop (N): own node, victims asleep or parked in handlers, Stop racing Kill/error/panic. supervisor-pool (B): act.Supervisor (one-for-one, all-for-one, rest-for-one; temporary children) and act.Pool with three children/workers, idle or with one child parked in a handler, x cause sequences on the supervisor/pool; the children are judged too. A case is non-trivial iff the position was really reached (gate fired) and at least two terminating causes had been issued before the first swap of the state word to Terminated completed (measured from the yield points proc.unreg.deleted / meta.term / meta.start.term and the logical clock at issue time); storms: iff at least one victim had that. distinct = kind x position x action sequence (directed), parameter class x contested (storm, node-stop). table (T) cases are single causes and never count as non-trivial")
+	hk.Rule("directed (D/R): victim (act.Actor, trapping act.Actor, raw behaviour, meta process) x position (asleep, parked in a handler that then returns nil/error/panics, blocked in Call, parked by a yield-point gate at run.enter/tosleep/recheck/reacquire/term.err/term.kill/term.panic, a Kill parked at kill.zombie/kill.term, meta tosleep/recheck/reacquire/term/start.term, already terminated) x ordered action sequence over {handler error, panic, Kill, Kill twice, two concurrent Kills, exit from parent, exit from a non-parent, parent terminates, Start() returns nil/error, SendExitMeta}; R = seeded random sequences of 2..4 actions. storm (S): 40..200 victims, seeded causes and traffic from 4..16 goroutines under seeded delays at the yield points. node-stop (N): own node, victims asleep or parked in handlers, Stop racing Kill/error/panic. supervisor-pool (B): act.Supervisor (one-for-one, all-for-one, rest-for-one; temporary children) and act.Pool with three children/workers, idle or with one child parked in a handler, x cause sequences on the supervisor/pool; the children are judged too. A case is non-trivial iff the position was really reached (gate fired) and at least two terminating causes had been issued before the first swap of the state word to Terminated completed (measured from the yield points proc.unreg.deleted / meta.term / meta.start.term and the logical clock at issue time); storms: iff at least one victim had that. distinct = kind x position x action sequence (directed), parameter class x contested (storm, node-stop). exit-table (X): reason class x delivery path x kind; terminate-panics (P): the same directed machinery with terminate callbacks that panic on first entry (callback panic + terminate panic in a child process). table (T) and exit-table (X) cases are single causes and never count as non-trivial")
 	hk.Assume("the instrumented behaviours (act.Actor, raw gen.ProcessBehavior, gen.MetaBehavior) are representative: all behaviours share node/process.go run(), node.Kill and node/meta.go")
 	hk.Assume("meta Start() is the main loop, concurrent to the handlers by design; it is not a callback and may still be running after Terminate")
 	hk.Assume("a process counts as 'ended' when the node no longer knows its PID (meta: its alias); observers' notifications are pushed before the terminate callback starts, so they are counted once the observers are idle")
@@ -41,17 +41,30 @@ func main() {
 	for _, kind := range []string{"actor", "trap", "raw"} {
 		whats := []string{"errw", "normal", "fexit3"}
 		if kind != "raw" {
-			whats = append(whats, "call-err", "call-panic", "linkexit", "event-err", "event-panic")
+			whats = append(whats, "call-err", "call-panic", "linkexit", "event-err", "event-panic", "inspect-panic", "log-err", "log-panic")
 		}
 		for _, w := range whats {
 			runTable(kind, w)
 		}
+	}
+	for _, kind := range []string{"actor", "sup", "pool"} {
+		runInit(kind, "err")
+		runInit(kind, "panic")
+	}
+	for _, c := range exitCases() {
+		runExit(c)
 	}
 	for _, c := range directedProcCases() {
 		runProc(c, "directed")
 	}
 	for _, c := range directedMetaCases() {
 		runMeta(c, "directed-meta")
+	}
+	for _, c := range termPanicProcCases() {
+		runProc(c, "terminate-panics")
+	}
+	for _, c := range termPanicMetaCases() {
+		runMeta(c, "terminate-panics-meta")
 	}
 	for _, c := range behaviourCases() {
 		runBehaviour(c, "supervisor-pool")
@@ -68,6 +81,8 @@ func main() {
 	for k := 0; k < hk.Pick(6, 200); k++ {
 		runStop(k)
 	}
+
+	runAlive()
 
 	h, d := hk.PointStats()
 	hk.Note("hook_hits", h)
